@@ -37,6 +37,13 @@ Definition funds_alternatives (bal val : V -> Z) : list (bool * cnd) :=
   (if funds_fail_keep (chk (fun v => bal v <? val v)) then [(true, fun v => bal v <? val v)] else []) ++
   [(false, fun v => val v <=? bal v)].
 
+(* the same fork at a call site (SEVM.call / SEVM.create): [balc] is the balance the fork looks at, [bald] the balance
+   transfer_value constrains and debits on the side that goes ahead.  funds_payer_same (regenerated from the call
+   sites) says the two are one account and one amount; the code's behaviour is then funds_alternatives. *)
+Definition funds_site_alternatives (balc bald val : V -> Z) : list (bool * cnd) :=
+  (if funds_fail_keep (chk (fun v => balc v <? val v)) then [(true, fun v => balc v <? val v)] else []) ++
+  [(false, fun v => val v <=? (if funds_payer_same then balc v else bald v))].
+
 (* ---- symbolic JUMP (--symbolic-jump): one branch per valid destination that is kept;
    None = InvalidJumpDestError raised for the whole state (a halting end state). *)
 Definition jump_alternatives (valid : list Z) (dst : V -> Z) : option (list (Z * cnd)) :=
